@@ -43,6 +43,19 @@ DATASETS["dirty"] = [("alpha", [("r", None), ("a", 0)]),
                      ("alpha", [("r", None), ("b", 0)]),
                      ("alpha", [("x", "MISSING"), ("y", 0)]),
                      ("beta", [("r", None), ("a", 0), ("b", 1)])]
+# time_buffer = 1 minute: anchors at minute 0 and 5 fix the window [1, 4];
+# offsets are (start, end) in minutes per span, default derived from k, i
+DATASETS["buffered"] = [("zz", [("z", None)]),
+                        ("alpha", [("r", None), ("a", 0)]),
+                        ("alpha", [("r", None), ("a", 0), ("b", 0)]),
+                        ("alpha", [("r", None), ("b", 0)]),
+                        ("zz", [("z", None)])]
+BUFFERED_TIMES = {0: [(0.0, 0.01)],
+                  1: [(2.0, 3.0), (2.2, 2.8)],
+                  2: [(0.5, 2.0), (0.6, 0.8), (0.7, 0.9)],   # root ends inside
+                  3: [(3.0, 4.5), (4.1, 4.4)],               # root starts inside
+                  4: [(4.99, 5.0)]}
+TIME_BUFFER = {"buffered": 1}
 ACTIONS_PV = [(ni, ug, se) for ni in (False, True) for ug in (False, True)
               for se in (False, True)]
 
@@ -52,6 +65,16 @@ def spans_of_dataset(ds):
     t = 1_700_000_000 * 10 ** 9
     for k, (name, nodes) in enumerate(DATASETS[ds]):
         for i, (typ, par) in enumerate(nodes):
+            if ds == "buffered":
+                st, en = BUFFERED_TIMES[k][i]
+                out.append({
+                    "job_name": name, "job_id": f"trace{k}",
+                    "event_type": typ, "event_id": f"t{k}s{i}",
+                    "start_timestamp": str(t + int(st * 60 * 10 ** 9)),
+                    "end_timestamp": str(t + int(en * 60 * 10 ** 9)),
+                    "application_name": f"app{k}",
+                    "parent_event_id": None if par is None else f"t{k}s{par}"})
+                continue
             out.append({
                 "job_name": name, "job_id": f"trace{k}", "event_type": typ,
                 "event_id": f"t{k}s{i}",
@@ -77,7 +100,7 @@ data_holders:
   sql:
     db_uri: "sqlite:///{root}/store.db"
     batch_size: 2
-    time_buffer: 0
+    time_buffer: {TIME_BUFFER.get(ds, 0)}
 data_sources:
   json:
     dirpath: {root}/in
@@ -243,7 +266,7 @@ def judge(ds, obs, ref_full, ref_obs, command, ni, ug, se, from_empty):
                     got.setdefault(k, []).append(tree_shape(ds, j[0][2]))
             want = {}
             for k, (name, nodes) in enumerate(DATASETS[ds]):
-                if not is_broken(nodes):
+                if not is_broken(nodes) and name != "zz":
                     want.setdefault(name, set()).add(
                         tree_shape(ds, f"trace{k}"))
             if {k: sorted(v) for k, v in got.items()} != \
@@ -264,8 +287,8 @@ def judge(ds, obs, ref_full, ref_obs, command, ni, ug, se, from_empty):
 def explore(tier, ctx, progress):
     pool.worker_setup()
     depth = 3 if tier == "quick" else 4
-    datasets = ["repeated", "dirty"] if tier == "quick" else \
-        ["repeated", "dirty", "distinct"]
+    datasets = ["repeated", "dirty", "buffered"] if tier == "quick" else \
+        ["repeated", "dirty", "buffered", "distinct"]
     commands = ["otel2pv"] if tier == "quick" else ["otel2pv", "otel2puml"]
     keep = impl_otel.scratch_dir()
     viol = []
